@@ -3,6 +3,7 @@
 
 pub mod clock;
 pub mod ctx;
+pub mod fuzz;
 pub mod gen;
 pub mod imp;
 pub mod prng;
